@@ -7,6 +7,18 @@ _A_NOTE = ('Trusted: CrossHair 0.0.110 proxy semantics and path pruning, z3 5.1.
            'before a VIOLATION is printed.')
 
 CLAIMS = {
+    'C06': dict(
+        engine='A-crosshair',
+        technique='bounded symbolic execution of the real code (CrossHair + z3); relational checks over rewrite pairs',
+        text=('For every 3-node DAG of the family (child targets solver-enumerated, wrapper kinds and rewrite pairs as '
+              'cubes), symbolic int leaves and a symbolic short str leaf: == / != never raise, are reflexive and '
+              'symmetric, give True for the four equality-preserving rewrites (deepcopy, default made explicit, dict '
+              'reordered, different edit history) and False for the four equality-breaking ones (leaf, callable, '
+              'Buildable type, alias redirected), are transitive over a -> r1(a) -> r2(r1(a)), and a == b implies '
+              'canonically identical built graphs. Separate cubes: dict keys of mixed int/str types from small '
+              'domains in every type pattern and insertion order; unset vs explicit default for every parameter kind '
+              'over the signature catalogue.'),
+        note=_A_NOTE + ' Dict keys range over finite small domains (a symbolic dict key is realised when hashed).'),
     'C02': dict(
         engine='A-crosshair',
         technique='bounded symbolic execution of the real code (CrossHair + z3) against an independent mirror construction',
